@@ -224,3 +224,26 @@ func Try(f func()) (pv any, panicked bool) {
 	f()
 	return nil, false
 }
+
+// Dedup counts distinct byte strings by 64-bit FNV-1a hash.
+type Dedup struct{ m map[uint64]struct{} }
+
+// NewDedup returns an empty counter.
+func NewDedup() *Dedup { return &Dedup{m: map[uint64]struct{}{}} }
+
+// Add records b and reports whether it was new.
+func (d *Dedup) Add(b []byte) bool {
+	h := uint64(14695981039346656037)
+	for _, c := range b {
+		h ^= uint64(c)
+		h *= 1099511628211
+	}
+	if _, ok := d.m[h]; ok {
+		return false
+	}
+	d.m[h] = struct{}{}
+	return true
+}
+
+// N returns the number of distinct strings seen.
+func (d *Dedup) N() int { return len(d.m) }
